@@ -32,6 +32,15 @@ def eval_term(t, env):
             if t.oty == NUMBER or t.oty == UNSIGNED:
                 return str(a[0])
             raise OutOfDomain("to_string float")
+        if t.op == "as":
+            # as(x, T) re-interprets the 32-bit pattern
+            if t.oty == NUMBER and t.ty == UNSIGNED:
+                return a[0] & U32_MAX
+            if t.oty == UNSIGNED and t.ty == NUMBER:
+                return a[0] - (1 << 32) if a[0] >= (1 << 31) else a[0]
+            if t.oty == t.ty:
+                return a[0]
+            raise OutOfDomain("as() between %s and %s" % (t.oty, t.ty))
         return arith(t.op, t.oty, a)
     raise TypeError("cannot evaluate %r" % (t,))
 
@@ -214,7 +223,7 @@ class Evaluator:
         P = self.P
         for n in P.order:
             r = P.rels[n]
-            self.db[n] = set(r.facts) if r.kind == "edb" else set()
+            self.db[n] = set(r.facts) if r.kind == "edb" else set(getattr(r, "late_facts", ()))
         for gi, group in enumerate(P.groups):
             rules = [r for r in P.rules if r.head.rel in group]
             rounds = 0
